@@ -97,7 +97,8 @@ fn main() {
             fn facts_of<F: MockFn>(_: F) -> (&'static str, &'static str, bool, bool) {
                 unimock::verif::mock_fn_facts::<F>()
             }
-            for (mid, (t, m, d, p)) in [(6, facts_of(GMock::g.with_types::<u8>())), (7, facts_of(GMock::g.with_types::<u16>()))] {
+            for (mid, (t, m, d, p)) in [(6, facts_of(GMock::g.with_types::<u8>())), (7, facts_of(GMock::g.with_types::<u16>())),
+                                        (38, facts_of(R1Mock::get.with_types::<u8>())), (39, facts_of(R2Mock::get.with_types::<u8>()))] {
                 writeln!(out, "{mid} {t} {m} {d} {p}").unwrap();
             }
             #[cfg(feature = "std-build")]
